@@ -71,14 +71,14 @@ let split_ws s = List.filter (fun x -> x <> "") (String.split_on_char ' ' s)
 
 (* ---- DAG text format:  n node_0 ... node_{n-1}   with node = ty:bits:r1,r2 (indices of earlier nodes) ---- *)
 type node = { nty : z; nbits : bool list; nrefs : int list }
-let parse_node (t : string) : node =
+let parse_node (t : String.t) : node =
   match String.split_on_char ':' t with
   | [ty; bits; refs] ->
     { nty = z_of_int (int_of_string ty); nbits = bits_of_str bits;
       nrefs = if refs = "" then [] else List.map int_of_string (String.split_on_char ',' refs) }
   | _ -> failwith "node"
 (* returns the nodes and the remaining tokens *)
-let parse_dag (toks : string list) : node array * string list =
+let parse_dag (toks : String.t list) : node array * String.t list =
   match toks with
   | n :: rest ->
     let n = int_of_string n in
@@ -109,11 +109,11 @@ let dec_of_n n = int_of_n n |> string_of_int
 
 (* ---- typed values / store ops of C06, C07 ---- *)
 let colon s = String.split_on_char ':' s
-let cell_tag (c : cell) : string =
+let cell_tag (c : cell) : String.t =
   let Cell (_, bits, refs) = c in
   let rec take k l = if k = 0 then [] else (match l with [] -> [] | x :: r -> x :: take (k - 1) r) in
   Printf.sprintf "c%d.%d.%s" (List.length bits) (List.length refs) (str_of_bits (take 16 bits))
-let parse_addr (f : string list) : addr =
+let parse_addr (f : String.t list) : addr =
   match f with
   | ["none"] -> AddrNone
   | ["ext"; len; v] -> AddrExt (z_of_hex v, z_of_hex len)
@@ -126,7 +126,7 @@ let show_addr = function
   | AddrStd (None, wc, h) -> Printf.sprintf "std:%s:%s" (hex_of_z wc) (hex_of_bytes h)
   | AddrStd (Some (d, p), wc, h) -> Printf.sprintf "std:%s:%s:%s:%s" (hex_of_z wc) (hex_of_bytes h) (hex_of_z d) (hex_of_z p)
 type xop = XS of sop | XSnake of n list
-let parse_op (trees : cell array) (t : string) : xop =
+let parse_op (trees : cell array) (t : String.t) : xop =
   match colon t with
   | ["u"; w; v] -> XS (OVal (VUint (z_of_hex w, z_of_hex v)))
   | ["i"; w; v] -> XS (OVal (VInt (z_of_hex w, z_of_hex v)))
@@ -148,7 +148,7 @@ let parse_op (trees : cell array) (t : string) : xop =
     XS (OSlice { s_bits = drop (int_of_string sb) s.s_bits; s_refs = drop (int_of_string sr) s.s_refs })
   | ["snake"; v] -> XSnake (bytes_of_hex v)
   | _ -> failwith ("op " ^ t)
-let parse_ty (t : string) : ttype =
+let parse_ty (t : String.t) : ttype =
   match colon t with
   | ["u"; w] -> TUint (z_of_hex w) | ["i"; w] -> TInt (z_of_hex w)
   | ["vu"; k] -> TVarUint (z_of_hex k) | ["vi"; k] -> TVarInt (z_of_hex k)
@@ -167,11 +167,11 @@ let show_val = function
   | VAddr a -> show_addr a
 
 (* ---- dictionaries ---- *)
-let rec cell_text (c : cell) : string =
+let rec cell_text (c : cell) : String.t =
   let Cell (ty, bits, refs) = c in
   Printf.sprintf "[%s%s%s]" (if ty = Zneg XH then "" else string_of_int (int_of_z ty) ^ "!")
     (str_of_bits bits) (String.concat "" (List.map cell_text refs))
-let parse_kv (trees : cell array) (t : string) =
+let parse_kv (trees : cell array) (t : String.t) =
   match String.split_on_char ';' t with
   | [k; vb; vr] ->
     (bits_of_str k, (bits_of_str vb, if vr = "" then [] else List.map (fun i -> trees.(int_of_string i)) (String.split_on_char ',' vr)))
@@ -179,3 +179,40 @@ let parse_kv (trees : cell array) (t : string) =
 let show_leaf (k, (s : slice0)) =
   Printf.sprintf "%s=%s/%s" (str_of_bits k) (str_of_bits s.s_bits) (commas cell_tag s.s_refs)
 let kind_char = function KShort -> 's' | KLong -> 'l' | KSame -> 'e'
+
+(* ---- Coq strings and Python values (TL-B decision trees) ---- *)
+let ocaml_of_coq (s : Model.string) : String.t =
+  let buf = Buffer.create 16 in
+  let rec go = function
+    | EmptyString -> ()
+    | String (Ascii (b0,b1,b2,b3,b4,b5,b6,b7), r) ->
+      let bit b k = if b then 1 lsl k else 0 in
+      Buffer.add_char buf (Char.chr (bit b0 0 + bit b1 1 + bit b2 2 + bit b3 3 + bit b4 4 + bit b5 5 + bit b6 6 + bit b7 7));
+      go r in
+  go s; Buffer.contents buf
+let coq_of_ocaml (s : String.t) : Model.string =
+  let n = String.length s in
+  let rec go i = if i = n then EmptyString else
+      let c = Char.code s.[i] in
+      let b k = (c lsr k) land 1 = 1 in
+      String (Ascii (b 0, b 1, b 2, b 3, b 4, b 5, b 6, b 7), go (i + 1)) in
+  go 0
+let rec show_pv (v : pv) : String.t =
+  match v with
+  | PInt z -> hex_of_z z
+  | PBool b -> if b then "T" else "F"
+  | PBytes l -> "b" ^ hex_of_bytes l
+  | PBits l -> "s" ^ str_of_bits l
+  | PStr s -> "\"" ^ ocaml_of_coq s ^ "\""
+  | PNone -> "~"
+  | PAddr AddrNone -> "~"
+  | PAddr a -> "@" ^ String.map (fun c -> if c = ':' then '/' else c) (show_addr a)
+  | PCell c -> cell_tag c
+  | PSlice s -> Printf.sprintf "sl%d/%d" (List.length s.s_bits) (List.length s.s_refs)
+  | PObj (cls, fs) ->
+    ocaml_of_coq cls ^ "{" ^ String.concat ";" (List.map (fun (n, x) -> ocaml_of_coq n ^ "=" ^ show_pv x) fs) ^ "}"
+  | PList l -> "[" ^ String.concat "," (List.map show_pv l) ^ "]"
+  | PDict l -> "<" ^ String.concat "," (List.map (fun (k, x) -> hex_of_z k ^ ":" ^ show_pv x) l) ^ ">"
+  | PHex l -> "x" ^ hex_of_bytes l
+  | PAugDict (l, ex) -> "<aug>"
+  | PDerived -> "?"
